@@ -16,12 +16,16 @@ inductive Clause
   | stringCmdVerbatim    -- string command line: the words the administrator wrote, macro values verbatim
   | failedNotRun         -- a check that failed in argument resolution is UNKNOWN and no process was started
   | timeoutUnknown       -- plugin exceeding its timeout: UNKNOWN, marked, child gone
+  | argvLayout           -- every value in exactly one element, or `key ++ separator ++ value` when a separator is configured
+  | cachedEqualsDirect   -- resolution from the `resolvedMacros` cache gives the command / argv of the direct resolution
+  | fillNotRun           -- the pass that fills `resolvedMacros` starts no process
   deriving Repr, DecidableEq
 
 def Clause.name : Clause → String
   | .exitMapping => "exit_mapping" | .outputText => "output_text" | .perfdata => "perfdata"
   | .argvMatchesCommand => "argv_matches_command" | .stringCmdVerbatim => "string_cmd_verbatim"
   | .failedNotRun => "failed_not_run" | .timeoutUnknown => "timeout_unknown"
+  | .argvLayout => "argv_layout" | .cachedEqualsDirect => "cached_equals_direct" | .fillNotRun => "fill_not_run"
 
 /-- Exit codes 0/1/2/3 map to OK/WARNING/CRITICAL/UNKNOWN and anything else to UNKNOWN. -/
 def specState (exit : Int) : Nat :=
@@ -61,6 +65,94 @@ def specArgvOfCommand (recorded : CmdOut) (argv : List Bytes) : Option Clause :=
     match shWords line with
     | .ok ws => if argv = ws then none else some .argvMatchesCommand
     | .error _ => none      -- outside the modelled sh fragment: judged by `stringCmdVerbatim`
+
+
+/-! ### The argument vector an `arguments` dictionary denotes (layout), stated without the code's
+    `AddArgumentHelper`: every kept argument contributes its key (unless `skip_key`; for the 2nd, 3rd, …
+    element of an array only with `repeat_key`) and each of its values in exactly ONE element — the value
+    alone, or `key ++ separator ++ value` in one element when a separator is configured (the empty string is
+    a separator: `-p3306`).  `IcingaProofs.C09.argv_shape_independent_of_values` proves the model equal. -/
+
+/-- What an argument contributes, abstracted from the bytes of its values. -/
+inductive Slot
+  | key          -- the key alone
+  | value        -- one value, alone in its element
+  | keyValue     -- key ++ separator ++ one value, in one element
+  | drop         -- one value consumed, nothing emitted (`skip_value`)
+  deriving Repr, DecidableEq
+
+/-- `some n`: an array of `n` elements; `none`: a scalar. -/
+def Val.shape : Val → Option Nat
+  | .arr l => some l.length
+  | _ => none
+
+def Val.elems : Val → List Bytes
+  | .arr l => l
+  | .str b => [b]
+  | .empty => [[]]
+
+def elemSlots (addKey addValue hasSep : Bool) : List Slot :=
+  if addKey && addValue && hasSep then [.keyValue]
+  else (if addKey then [.key] else []) ++ [if addValue then .value else .drop]
+
+def arrSlots (skipKey repeatKey skipValue hasSep : Bool) : Bool → Nat → List Slot
+  | _, 0 => []
+  | first, n + 1 =>
+    elemSlots (if first then !skipKey else !skipKey && repeatKey) (!skipValue) hasSep
+      ++ arrSlots skipKey repeatKey skipValue hasSep false n
+
+/-- The layout of an argument: a function of its flags and of the SHAPE of its value only. -/
+def slots (skipKey repeatKey skipValue hasSep : Bool) : Option Nat → List Slot
+  | none => elemSlots (!skipKey) (!skipValue) hasSep
+  | some n => arrSlots skipKey repeatKey skipValue hasSep true n
+
+/-- Filling a layout: every value-consuming slot takes the next value, whole, into one element. -/
+def fill (key sep : Bytes) : List Slot → List Bytes → List Bytes
+  | [], _ => []
+  | .key :: r, vs => key :: fill key sep r vs
+  | .value :: r, v :: vs => v :: fill key sep r vs
+  | .keyValue :: r, v :: vs => (key ++ sep ++ v) :: fill key sep r vs
+  | .drop :: r, _ :: vs => fill key sep r vs
+  | _ :: _, [] => []
+
+def consumers : List Slot → Nat
+  | [] => 0
+  | .key :: r => consumers r
+  | _ :: r => consumers r + 1
+
+
+/-- The elements one kept argument contributes. -/
+def specArgBlock (a : RArg) : List Bytes :=
+  fill a.key (a.sep.getD []) (slots a.skipKey a.repeatKey a.skipValue a.sep.isSome a.value.shape) a.value.elems
+
+/-- Arguments sorted by `order`; inside a class of equal `order` any sequence is allowed (`std::sort`).
+    All remainders of `obs` after consuming every block of the class once, in any order. -/
+def consumePerm : Nat → List (List Bytes) → List Bytes → List (List Bytes)
+  | 0, _, _ => []
+  | _, [], obs => [obs]
+  | fuel + 1, blocks, obs =>
+    (List.range blocks.length).flatMap fun i =>
+      match blocks[i]? with
+      | some blk => if blk.isPrefixOf obs then consumePerm fuel (blocks.eraseIdx i) (obs.drop blk.length) else []
+      | none => []
+
+def consumeClasses : List (List (List Bytes)) → List (List Bytes) → List (List Bytes)
+  | [], rests => rests
+  | g :: gs, rests => consumeClasses gs (rests.flatMap (consumePerm (g.length + 1) g))
+
+def insertClass (a : RArg) : List (Int × List RArg) → List (Int × List RArg)
+  | [] => [(a.order, [a])]
+  | (o, g) :: r => if a.order = o then (o, g ++ [a]) :: r else if a.order < o then (a.order, [a]) :: (o, g) :: r
+                   else (o, g) :: insertClass a r
+
+/-- Classes of equal `order`, ascending. -/
+def orderClasses (as : List RArg) : List (List RArg) := (as.foldl (fun acc a => insertClass a acc) []).map (·.2)
+
+/-- `argv` = the command's own elements followed by the kept arguments' blocks, by ascending `order`. -/
+def specArgvLayout (base : List Bytes) (kept : List RArg) (argv : List Bytes) : Option Clause :=
+  if base.isPrefixOf argv &&
+     (consumeClasses ((orderClasses kept).map (·.map specArgBlock)) [argv.drop base.length]).any (·.isEmpty)
+  then none else some .argvLayout
 
 /-! ### String command lines: the words the administrator wrote, with macro values verbatim -/
 
